@@ -1,0 +1,33 @@
+//go:build verif
+
+package xlsx
+
+// Contracts for gocv (comment-only; see /verif/DESIGN.md).  No executable code.
+
+// Bijective base 26 (A=1 .. Z=26), left fold over the first n bytes of an upper-case letter string.
+//@ spec rec func colnum(s string, n int) int = n <= 0 ? 0 : colnum(s, n - 1) * 26 + (s[n-1] - 'A' + 1)
+//@ spec func upperByte(b int) int = (b >= 'a' && b <= 'z') ? b - 32 : b
+//@ spec func letterByte(b int) bool = (b >= 'A' && b <= 'Z') || (b >= 'a' && b <= 'z')
+// the same fold over the upper-cased bytes of s
+//@ spec rec func colnumCI(s string, n int) int = n <= 0 ? 0 : colnumCI(s, n - 1) * 26 + (upperByte(s[n-1]) - 'A' + 1)
+
+//@ func isLetter results (r)
+//@   property C17
+//@   ensures r == letterByte(c)
+
+//@ func ColumnToIndex results (r)
+//@   property C17
+//@   requires ascii: forall k int :: {col[k]} 0 <= k && k < len(col) ==> col[k] < 128
+//@   ensures value: (forall k int :: {col[k]} 0 <= k && k < len(col) ==> letterByte(col[k])) ==> r == colnumCI(old(col), len(old(col))) - 1
+//@   ensures reject: (exists k int :: 0 <= k && k < len(old(col)) && !letterByte(old(col)[k])) ==> r == 0 - 1
+//@   loop 0:
+//@     invariant len(col) == len(old(col)) && forall k int :: {col[k]} 0 <= k && k < len(col) ==> col[k] == upperByte(old(col)[k])
+//@     invariant 0 <= $i && $i <= len(col) && result == colnumCI(old(col), $i) && result >= 0
+//@     invariant forall k int :: {old(col)[k]} 0 <= k && k < $i ==> letterByte(old(col)[k])
+//@     decreases len(col) - $i
+
+//@ func (*Sheet) Cell results (c)
+//@   property C17
+//@   flags readonly
+//@   ensures inrange: row >= 0 && row < len(s.Rows) && col >= 0 && col < len(s.Rows[row]) ==> !isnil(c) && c == s.Rows[row][col]
+//@   ensures outside: !(row >= 0 && row < len(s.Rows) && col >= 0 && col < len(s.Rows[row])) ==> isnil(c)
